@@ -16,17 +16,22 @@ class MalCompiler:
         self.current_file = None
 
     def compile(self, malfile: Optional[str] = None):
-        if not self.path:
-            self.path = os.path.dirname(malfile)
-
+        # An included file is looked up relative to the file including it
+        previous = (self.path, self.current_file)
+        if self.path is not None:
+            malfile = os.path.join(self.path, malfile)
+        self.path = os.path.dirname(malfile)
         self.current_file = os.path.basename(malfile)
 
-        input_stream = FileStream(
-            os.path.join(self.path, self.current_file), encoding="utf-8"
-        )
-        lexer = malLexer(input_stream)
-        stream = CommonTokenStream(lexer)
-        parser = malParser(stream)
-        tree = parser.mal()
+        try:
+            input_stream = FileStream(
+                os.path.join(self.path, self.current_file), encoding="utf-8"
+            )
+            lexer = malLexer(input_stream)
+            stream = CommonTokenStream(lexer)
+            parser = malParser(stream)
+            tree = parser.mal()
 
-        return malVisitor(compiler=self).visit(tree)
+            return malVisitor(compiler=self).visit(tree)
+        finally:
+            self.path, self.current_file = previous
